@@ -153,11 +153,18 @@ def run_case(case, ex):
     try:
         resp = ex.request(request_of(case), timeout=300)
     except xv.ExecutorDied as e:
-        return False, 'executor died rc=%s\n%s' % (e.rc, e.stderr[-3000:]), {'labels': set(), 'nontrivial': False}
+        return False, 'executor died rc=%s\n%s' % (e.rc, died_summary(e.stderr)), {'labels': set(), 'nontrivial': False}
     return check(case, resp)
+
+def died_summary(stderr):
+    """sanitizer headline + the Xerces frames (the raw tail is dominated by the harness's std::function frames)"""
+    head = re.findall(r'[^\n]*(?:runtime error|ERROR: AddressSanitizer|ERROR: LeakSanitizer)[^\n]*', stderr)[:2]
+    frames = re.findall(r'#\d+ 0x[0-9a-f]+ in (xercesc_4_0::[^\s(]+)[^\n]*?(src/xercesc/\S+)', stderr)[:14]
+    return '\n'.join(h[-300:] for h in head) + '\n' + '\n'.join('  %s %s' % f for f in frames) + '\n' + stderr[-600:]
 
 def worker(ctx):
     ex = ctx.executor('xv_pool', restart_every=300)
+    gg.LONG_PATTERN_ODDS = 2 if ctx.tier == 'thorough' else 11
     st_ = ctx.stats
     def prop(c):
         grammars, instances, lock, lockser, api = c
@@ -209,8 +216,16 @@ def replay(case, ctx):
     ok, detail, info = run_case(case, ctx.executor('xv_pool'))
     return ok, detail
 
+F_READALIGN = 'C16-read-exact-buffer-multiple'
 def classify(case, detail):
-    return case.get('finding')
+    if case.get('finding'): return case['finding']
+    # XSerializeEngine::read(XMLByte*, n): when the part of a long byte string that follows the current buffer is an exact multiple of
+    # the 8192-byte buffer, fBufCur is left at the start of the last buffer and the next read takes stale bytes: garbage lengths ->
+    # allocation failure / XSerializationException inside deserializeGrammars.  Whether a case hits the alignment depends on the
+    # stream offset of the string, which the generator cannot know: classified by call site (cases with long strings only).
+    has_long = any(('long-string' in g.get('kinds', []) or 'dtd:long-string' in g.get('kinds', [])) for g in case.get('grammars', []))
+    if has_long and ('XSerializeEngine::read' in detail or 'DESEREXC' in detail): return F_READALIGN
+    return None
 
 def known_witnesses():
     out = []
